@@ -58,7 +58,7 @@ func (c03) Gates(tier string, m map[string]int64) []rt.Gate {
 	return gs
 }
 
-var c03Families = []string{gen.FTiny, gen.FNum, gen.FNum, gen.FFloat, gen.FMixed, gen.FMixed, gen.FBinary, gen.FWide, gen.FWide, gen.FTies}
+var c03Families = []string{gen.FTiny, gen.FNum, gen.FNum, gen.FFloat, gen.FMixed, gen.FMixed, gen.FBinary, gen.FWide, gen.FWide, gen.FTies, gen.FRel, gen.FRel}
 
 func fullGenFor(c *rt.Ctx, st *gen.Store, r *rt.Rand) *gen.FullGen {
 	g := &gen.FullGen{R: r, KeyLits: st.KeyLiterals(r), Avoid: c.Avoid, Family: st.Family}
@@ -81,6 +81,9 @@ func (k c03) Run(c *rt.Ctx) {
 	r := c.R
 	st := gen.NewStore(r, c03Families[r.Intn(len(c03Families))])
 	g := fullGenFor(c, st, r)
+	if r.Chance(1, 3) {
+		g.RefBias = 3
+	}
 	stmt := g.Any(r.Range(1, 3))
 	style := gen.Style{Paren: []int{0, 0, 1, 3}[r.Intn(4)], R: r.Fork(), Case: r.Chance(1, 4)}
 	query := stmt.Text(style)
